@@ -1,8 +1,88 @@
-/- line-protocol handlers for the C03 models (stub: nothing modelled yet) -/
-import FontVerif.Model.Base
+/- line-protocol handlers for the C03 models:
+   `ft.*`  FreeType side  (Model/FtCalc.lean, Model/FtRound.lean)
+   `sk.*`  skrifa side    (Model/Fixed.lean, Model/HintMath.lean, Model/HintRound.lean) -/
+import FontVerif.Model.Fixed
+import FontVerif.Model.FtCalc
+import FontVerif.Model.FtRound
+import FontVerif.Model.HintMath
+import FontVerif.Model.HintRound
 namespace FontVerif.Drv.C03
 open FontVerif
 
-def handle (_cmd : String) (_args : List String) : Option String := none
+def optInt : Option Int → String
+  | none => "trap"
+  | some v => toString v
+
+def triple (p : Int × Int × Int) : String := s!"{p.1} {p.2.1} {p.2.2}"
+
+/-- the round state an opcode handler leaves behind, starting from the default state
+(`RoundState::default()`: Grid, threshold 0, phase 0, period 64): `(mode, period, phase, threshold)`.
+Opcodes: 0x18 RTG, 0x19 RTHG, 0x3D RTDG, 0x7D RDTG, 0x7C RUTG, 0x7A ROFF, 0x76 SROUND, 0x77 S45ROUND. -/
+def skStateAfter (opcode sel : Int) : Option (Option (Int × Int × Int × Int)) :=
+  if opcode = 0x18 then some (some (0, 64, 0, 0))
+  else if opcode = 0x19 then some (some (1, 64, 0, 0))
+  else if opcode = 0x3D then some (some (2, 64, 0, 0))
+  else if opcode = 0x7D then some (some (3, 64, 0, 0))
+  else if opcode = 0x7C then some (some (4, 64, 0, 0))
+  else if opcode = 0x7A then some (some (5, 64, 0, 0))
+  else if opcode = 0x76 then some ((HintRound.superRound 0x4000 sel).map fun (p, ph, t) => (6, p, ph, t))
+  else if opcode = 0x77 then some ((HintRound.superRound 0x2D41 sel).map fun (p, ph, t) => (7, p, ph, t))
+  else none
+
+/-- same for FreeType (`Ins_RTG` …, `Ins_SROUND`, `Ins_S45ROUND`; default GS: period 64, phase 0,
+threshold 0 set by `TT_Run_Context`… the harness program always runs the state opcode first). -/
+def ftStateAfter (opcode sel : Int) : Option (Int × Int × Int × Int) :=
+  if opcode = 0x18 then some (0, 64, 0, 0)
+  else if opcode = 0x19 then some (1, 64, 0, 0)
+  else if opcode = 0x3D then some (2, 64, 0, 0)
+  else if opcode = 0x7D then some (3, 64, 0, 0)
+  else if opcode = 0x7C then some (4, 64, 0, 0)
+  else if opcode = 0x7A then some (5, 64, 0, 0)
+  else if opcode = 0x76 then let (p, ph, t) := FtRound.setSuperRound 0x4000 sel; some (6, p, ph, t)
+  else if opcode = 0x77 then let (p, ph, t) := FtRound.setSuperRound 0x2D41 sel; some (7, p, ph, t)
+  else none
+
+def handle (cmd : String) (args : List String) : Option String :=
+  match parseInts? args with
+  | none => none
+  | some xs =>
+    match cmd, xs with
+    -- FreeType side
+    | "ft.mulfix", [a, b] => some (toString (FtCalc.mulFix a b))
+    | "ft.divfix", [a, b] => some (toString (FtCalc.divFix a b))
+    | "ft.muldiv", [a, b, c] => some (toString (FtCalc.mulDiv a b c))
+    | "ft.muldivnr", [a, b, c] => some (toString (FtCalc.mulDivNoRound a b c))
+    | "ft.roundfix", [a] => some (toString (FtCalc.roundFix a))
+    | "ft.ceilfix", [a] => some (toString (FtCalc.ceilFix a))
+    | "ft.floorfix", [a] => some (toString (FtCalc.floorFix a))
+    | "ft.mul14", [a, b] => some (toString (FtCalc.mulFix14 a b))
+    | "ft.dot14", [a, b, c, d] => some (toString (FtCalc.dotFix14 a b c d))
+    | "ft.round", [m, t, ph, p, d] =>
+      if 0 ≤ m ∧ m ≤ 7 ∧ ¬ (m = 7 ∧ p = 0) then some (toString (FtRound.round m t ph p 0 d)) else none
+    | "ft.ssr", [g, sel] => some (triple (FtRound.setSuperRound g sel))
+    | "ft.rops", [op, sel, d] =>
+      (ftStateAfter op sel).map fun (m, p, ph, t) => s!"{p} {ph} {t} {FtRound.round m t ph p 0 d}"
+    -- skrifa side
+    | "sk.mul", [a, b] => some (toString (HintMath.mul a b))
+    | "sk.div", [a, b] => some (toString (HintMath.div a b))
+    | "sk.muldiv", [a, b, c] => some (toString (HintMath.mulDiv a b c))
+    | "sk.muldivnr", [a, b, c] => some (toString (HintMath.mulDivNoRound a b c))
+    | "sk.mul14", [a, b] => some (toString (HintMath.mul14 a b))
+    | "sk.dot14", [a, b, c, d] => some (optInt (HintMath.dot14 a b c d))
+    | "sk.floor", [a] => some (toString (HintMath.floor a))
+    | "sk.round", [a] => some (toString (HintMath.round a))
+    | "sk.ceil", [a] => some (toString (HintMath.ceil a))
+    | "sk.roundpad", [a, n] => some (optInt (HintMath.roundPad a n))
+    | "sk.rs", [m, t, ph, p, d] =>
+      if 0 ≤ m ∧ m ≤ 7 then some (optInt (HintRound.round m t ph p d)) else none
+    | "sk.ssr", [g, sel] => some (match HintRound.superRound g sel with
+        | none => "trap" | some p => triple p)
+    | "sk.rops", [op, sel, d] =>
+      (skStateAfter op sel).map fun st => match st with
+        | none => "trap"
+        | some (m, p, ph, t) => match HintRound.round m t ph p d with
+          | none => "trap"
+          | some r => s!"{p} {ph} {t} {r}"
+    | _, _ => none
 
 end FontVerif.Drv.C03
